@@ -15,7 +15,7 @@ RULE = ("every history of <= N writer-API operations (alphabet in coverage.bound
 
 MULTI = "line one\n  two more\n\nafter blank"
 INDENTED = "  every line\n    has its own\n  leading spaces"
-TITLES = ["T", "Title 7", "A title of exactly forty characters long."[:40]]
+TITLES = ["T", "Title 7", "A title of exactly forty characters long."[:40], "データ e\u0301 ｗ"]
 
 # ---------------------------------------------------------------- alphabet
 
@@ -257,7 +257,7 @@ def run(ctx):
     s = ctx.seed
     titles = common.rot(TITLES, s)
     configs = [(titles[0], None, depth), (titles[1], ("=", "-", "~", "^", "+"), depth - 1),
-               (titles[2], None, depth - 2), (titles[1], ("=", "-", "~", "^", "+"), depth - 2)]
+               (titles[2], None, depth - 2), (titles[3], ("=", "-", "~", "^", "+"), depth - 2)]
     ctx.cov["bounds"] = {"max_operations": depth, "max_nesting": maxnest,
                          "alphabet": [list(o) for o in alphabet()],
                          "configs": [{"title": t, "headers": h, "depth": d} for t, h, d in configs]}
